@@ -260,4 +260,7 @@ func runC20(c *Ctx) {
 	}
 
 	ruleTlogReader(c, "R20.4")
+	// "an entry whose frame cannot be encoded leaves nothing in the log": the v1 id > 255 refusal the tlog writer relies
+	// on lives in V1Frame.marshalTo, in front of every byte store (R1.4)
+	ruleVersionGate(c)
 }
